@@ -419,7 +419,7 @@ func c08KeyLimits(c *engine.Ctx, kinds []drv.Kind) {
 	}
 	var cases []kc
 	for _, k := range kinds {
-		for _, via := range []string{"put", "copy", "form"} {
+		for _, via := range []string{"put", "copy", "form", "multipart"} {
 			cases = append(cases,
 				kc{k, via, "ascii-1025-bytes", strings.Repeat("k", 1025), true},
 				kc{k, via, "utf8-1025-bytes-513-chars", strings.Repeat("é", 512) + "a", true},
@@ -431,6 +431,10 @@ func c08KeyLimits(c *engine.Ctx, kinds []drv.Kind) {
 			// segment longer than a file name), below directories that do not exist yet
 			cases = append(cases, kc{k, via, "new-dirs+300-byte-segment", "newdir/sub/" + strings.Repeat("s", 300), false})
 			cases = append(cases, kc{k, via, "new-dirs+300-byte-top-segment", strings.Repeat("t", 300), false})
+			// ... or a directory segment that cannot exist, below one that is created first
+			cases = append(cases, kc{k, via, "new-dirs+300-byte-middle-segment", "newdir/sub/" + strings.Repeat("s", 300) + "/leaf", false})
+			cases = append(cases, kc{k, via, "new-dirs+nul-in-middle-segment", "newdir/sub/a\x00b/leaf", false})
+			cases = append(cases, kc{k, via, "new-dirs+nul-in-leaf", "newdir/sub/a\x00b", false})
 		}
 	}
 	engine.ParallelFor(len(cases), func(_, i int) {
@@ -444,10 +448,29 @@ func c08KeyLimits(c *engine.Ctx, kinds []drv.Kind) {
 			w.Do(drv.Req{Method: "PUT", Path: "/aaa"})
 		}
 		w.Do(drv.Req{Method: "PUT", Path: "/aaa/src", Body: []byte("source")})
-		before := c08Snap(w)
+		if cs.via == "multipart" {
+			// the bucket has had an upload before (its upload listing exists either way)
+			if x := w.Do(drv.Req{Method: "POST", Path: "/aaa/warm-up", Query: "uploads"}).XML(); x != nil {
+				w.Do(drv.Req{Method: "DELETE", Path: "/aaa/warm-up", Query: drv.Q("uploadId", x.T("UploadId"))})
+			}
+		}
+		before := c08Snap(w) + w.RawDump()
 		body := []byte("payload")
 		var r drv.Resp
 		switch cs.via {
+		case "multipart":
+			// the last answer counts; an upload refused on the way is over
+			r = w.Do(drv.Req{Method: "POST", Path: "/aaa/" + cs.key, Query: "uploads"})
+			if x := r.XML(); r.Status == 200 && x != nil {
+				id := x.T("UploadId")
+				r = w.Do(drv.Req{Method: "PUT", Path: "/aaa/" + cs.key, Query: drv.Q("uploadId", id, "partNumber", "1"), Body: body})
+				if r.Status == 200 {
+					r = w.Do(drv.Req{Method: "POST", Path: "/aaa/" + cs.key, Query: drv.Q("uploadId", id), Body: completeBody([]model.CPart{{N: 1, ETag: model.PartETag(body)}})})
+				}
+				if r.Status >= 300 {
+					w.Do(drv.Req{Method: "DELETE", Path: "/aaa/" + cs.key, Query: drv.Q("uploadId", id)})
+				}
+			}
 		case "put":
 			r = w.Do(drv.Req{Method: "PUT", Path: "/aaa/" + cs.key, Body: body})
 		case "copy":
@@ -471,7 +494,7 @@ func c08KeyLimits(c *engine.Ctx, kinds []drv.Kind) {
 				report("accepted", "a key of more than 1024 bytes was accepted with "+r.Short())
 				return
 			}
-			if after := c08Snap(w); after != before {
+			if after := c08Snap(w) + w.RawDump(); after != before {
 				report("state-changed", "the rejected upload ("+r.Short()+") changed the stored state")
 				return
 			}
@@ -480,9 +503,17 @@ func c08KeyLimits(c *engine.Ctx, kinds []drv.Kind) {
 		}
 		if r.Status >= 300 && strings.HasPrefix(cs.name, "new-dirs") {
 			// the backend may be unable to store it; then nothing may be left behind
-			if after := c08Snap(w); after != before {
+			if after := c08Snap(w) + w.RawDump(); after != before {
 				report("state-changed", "the refused upload ("+r.Short()+") changed the stored state:\nbefore:\n"+before+"\nafter:\n"+after)
 				return
+			}
+			// ... and the keys above it are as storable as they were
+			if strings.HasPrefix(cs.key, "newdir/") {
+				if p := w.Do(drv.Req{Method: "PUT", Path: "/aaa/newdir", Body: []byte("n")}); p.Status != 200 {
+					report("sibling-key-unstorable", "after the refused upload PUT /aaa/newdir answers "+p.Short())
+					return
+				}
+				w.Do(drv.Req{Method: "DELETE", Path: "/aaa/newdir"})
 			}
 			// the key was never stored: it reads as absent and deleting it is a no-op
 			if g := w.Do(drv.Req{Method: "GET", Path: "/aaa/" + cs.key}); g.Status != 404 {
